@@ -662,6 +662,8 @@ class RTCSctpTransport(AsyncIOEventEmitter):
         self._fast_recovery_exit = None
         self._fast_recovery_transmit = False
         self._forward_tsn_chunk: Optional[ForwardTsnChunk] = None
+        self._forward_tsn_pending = False
+        self._forward_tsn_streams: dict[int, int] = {}
         self._flight_size = 0
         self._local_tsn = random32()
         self._last_sacked_tsn = tsn_minus_one(self._local_tsn)
@@ -1622,23 +1624,24 @@ class RTCSctpTransport(AsyncIOEventEmitter):
         """
         Try to advance "Advanced.Peer.Ack.Point" according to RFC 3758.
         """
-        if uint32_gt(self._last_sacked_tsn, self._advanced_peer_ack_tsn):
+        if uint32_gte(self._last_sacked_tsn, self._advanced_peer_ack_tsn):
+            # the peer has caught up with every FORWARD TSN sent so far
             self._advanced_peer_ack_tsn = self._last_sacked_tsn
+            self._forward_tsn_pending = False
+            self._forward_tsn_streams = {}
 
-        done = 0
-        streams = {}
         while self._sent_queue and self._sent_queue[0]._abandoned:
             chunk = self._sent_queue.popleft()
             self._advanced_peer_ack_tsn = chunk.tsn
-            done += 1
             if not (chunk.flags & SCTP_DATA_UNORDERED):
-                streams[chunk.stream_id] = chunk.stream_seq
+                self._forward_tsn_streams[chunk.stream_id] = chunk.stream_seq
+            self._forward_tsn_pending = True
 
-        if done:
-            # build FORWARD TSN
+        if self._forward_tsn_pending:
+            # build FORWARD TSN (again, as long as the peer has not caught up)
             self._forward_tsn_chunk = ForwardTsnChunk()
             self._forward_tsn_chunk.cumulative_tsn = self._advanced_peer_ack_tsn
-            self._forward_tsn_chunk.streams = list(streams.items())
+            self._forward_tsn_chunk.streams = list(self._forward_tsn_streams.items())
 
     def _update_rto(self, R: float) -> None:
         """
